@@ -378,6 +378,8 @@ bool Directory::copy(const String& from, const String& to)
 		if( m != n)
 			return false;
 	}while (n == sizeof(buffer));
+	if(src.error()) // a short block that is not the end of the source (fread never returns a negative count)
+		return false;
 	dst.flush(); // what is still buffered must reach the file before the copy can be called complete
 	if(dst.error())
 		return false;
